@@ -247,6 +247,49 @@ def check_gates(ctx, prog, lr):
                    'store that was not rebuilt' % a)
 
 
+def check_cache_order(ctx):
+    """The file cache is read by every decision without a lock: an entry
+    shows a modification time only once it holds the data read at that
+    time.  An entry stamped first looks current to a concurrent reader while
+    its data is missing (KeyError) or still the old one."""
+    prog = ctx.prog
+    f = prog.functions.get(PKG + '._cache_handler.read_cached_file')
+    if f is None:
+        raise AnalysisError('file cache reader not found')
+    from ..dte import Table as _T
+    t = _T(prog, f, handler_paths=False)
+    n = 0
+    bad = None
+
+    def key_of_store(e):
+        x = e.node
+        if isinstance(x, ast.Subscript) and isinstance(
+                x.slice, ast.Constant) and isinstance(x.slice.value, str):
+            return x.slice.value
+        return None
+    for p in t.paths:
+        seen_data = False
+        for e in p.events:
+            if e.kind != 'store':
+                continue
+            k = key_of_store(e)
+            if k == 'data':
+                seen_data = True
+            elif k == 'mtime':
+                n += 1
+                if not seen_data and bad is None:
+                    bad = (p, e)
+    ctx.ob('C20.CACHE-ORDER', bad is None, ctx.where(
+        f.module, bad[1].node) if bad else ctx.where(f.module, f.node),
+        f.qual, 'time stamp after data (%d stamping paths)' % n,
+        'a cache entry is stamped with the file\'s modification time only '
+        'after the data read at that time is in it' if bad is None else
+        'the cache entry is stamped with the new modification time before '
+        'the data is stored: a decision running meanwhile finds an entry '
+        'that looks current and returns data that is missing or stale')
+    ctx.floor('C20.CACHE-ORDER', n, 1, 'paths stamping the cache entry')
+
+
 def check(ctx):
     prog = ctx.prog
     ctx.use(POLICY, CHECKS)
@@ -446,6 +489,7 @@ def check(ctx):
             '%d methods' % len(rules_cls.methods),
             'the rule store keeps nothing besides its entries and the '
             'default rule it was given')
+    check_cache_order(ctx)
     for f, n, lock in readers:
         ctx.sample('reader %s %s:%d %s' % (f.qual, f.module.path.split(
             '/')[-1], n.lineno, U(n)))
